@@ -16,6 +16,7 @@ from .c05 import decoder_runs
 from .c09 import conj, dir_loops, is_stdout_print, DECODERS
 
 LOG_SYMS = {"DATA", "P"}
+_NONE_EXCS = {}
 
 
 def log_derived(I, t, depth=0):
@@ -49,6 +50,19 @@ def classify_store(I, e, store):
             return "bad", "module cached under a key that is not its name (%r vs %r)" % (key, val.args[0])
         if val == NONE:
             return "import-cache-missing", None
+        # one store for both outcomes:  module = import_module(k) / except ImportError: module = None;  cache[k] = module
+        alts = []
+
+        def leaves(t, cs):
+            if isinstance(t, Ite):
+                leaves(t.a, cs + conj(t.c)), leaves(t.b, cs + [not_(t.c)])
+            else:
+                alts.append((t, cs))
+        leaves(val, [])
+        if len(alts) > 1 and all(t == NONE or (isinstance(t, Op) and t.op == "import_module" and t.args[0] == key) or isinstance(t, Undef)
+                                 for t, _ in alts):
+            _NONE_EXCS[id(store)] = [c for t, cs in alts if t == NONE for c in cs if isinstance(c, Sym) and c.kind == "exc"]
+            return "import-cache-missing", None
         if log_derived(I, val) or log_derived(I, key):
             return "bad", "a value derived from the log being decoded is stored in shared state"
         return "load", None
@@ -63,7 +77,7 @@ def classify_store(I, e, store):
 def missing_store_ok(I, store):
     """cache[k] = None is only sound when the handler it sits in can be entered solely by the import of k failing:
     the try body must not use the module (no call into it)."""
-    excs = [c for c in conj(store.guard) if isinstance(c, Sym) and c.kind == "exc"]
+    excs = [c for c in conj(store.guard) if isinstance(c, Sym) and c.kind == "exc"] + list(_NONE_EXCS.get(id(store), []))
     if not excs:
         # stored unconditionally / on a normal path
         return False, "cache entry is set to None outside an exception handler"
